@@ -186,6 +186,7 @@ def oracle(lines, in_contract, gm, ops):
 
 
 def run_life(ctx, quick):
+    t_start = time.time()
     rng = ctx.rng.fork()
     pr = ctx.coq_properties("Properties/Properties_C11_life.v")
     ok, log = ctx.coq_make(["theories/Barrier/LifecycleExtract.vo"])
@@ -298,6 +299,7 @@ def run_life(ctx, quick):
                         "join (leavers inside), resize without join, fewer / more participants than the count, second global init, "
                         "qt_global_barrier before init, re-creation; compared with the extracted machine after every step; "
                         "non-trivial = >= 3 operations and a group of >= 2 participants")
+    cov["life_wall_s"] = round(time.time() - t_start, 1)
     cov["life_destroy_race_reproduced"] = uaf_seen
     cov["life_free_runs"] = free_runs
     cov["life_free_runs_destroy_race_hit"] = free_race
